@@ -171,6 +171,37 @@ Section Nested.
   Qed.
 End Nested.
 
+(* zip(c, c) over a fresh-cursor container yields every part paired with itself, in order *)
+Section Zip.
+  Context {A : Type}.
+  Variable parts : list A.
+
+  Lemma zip_loop_fresh fuel : forall cs c,
+    cur_get 0 cs = Some c -> cur_get 1 cs = Some c -> (length (skipn c parts) < fuel)%nat ->
+    zip_loop (fresh_step parts) fuel cs = map (fun x => (x, x)) (skipn c parts).
+  Proof.
+    induction fuel as [|f IH]; intros cs c H0 H1 L; [lia|].
+    cbn [zip_loop fresh_step]. rewrite H0. destruct (nth_error parts c) as [x|] eqn:E.
+    - cbn [fresh_step]. replace (cur_get 1 (cur_set 0 (S c) cs)) with (cur_get 1 cs) by reflexivity.
+      rewrite H1, E. rewrite (nth_error_skipn_cons _ _ _ E) in *.
+      remember (skipn (S c) parts) as rest eqn:Er. simpl in L. cbn [map]. f_equal.
+      subst rest. apply (IH _ (S c)); [reflexivity | reflexivity | lia].
+    - rewrite (nth_error_none_skipn _ _ E). reflexivity.
+  Qed.
+
+  Lemma zip_iteration_lemma :
+    zip_pairs (fresh_step parts) [] (length parts) = map (fun x => (x, x)) parts.
+  Proof.
+    unfold zip_pairs. cbn [fresh_step].
+    apply (zip_loop_fresh (S (length parts)) _ 0); [reflexivity | reflexivity | simpl; lia].
+  Qed.
+End Zip.
+
+Lemma shared_cursor_zip_refuted_lemma :
+  exists parts : list Z, zip_pairs (shared_step parts) None (length parts) = [(1, 2)]%Z /\
+                         zip_pairs (shared_step parts) None (length parts) <> map (fun x => (x, x)) parts.
+Proof. exists [1; 2]%Z. split; [vm_compute; reflexivity | vm_compute; discriminate]. Qed.
+
 (* the old design: the same client program loses pairs; an interleaved history makes
    iterator 0 stop before it has visited the second part *)
 Lemma shared_cursor_refuted_lemma :
@@ -295,50 +326,131 @@ Proof.
   rewrite !C. now apply Permutation_map.
 Qed.
 
-(* the trace checker is sound: a sequence of read-only operations whose ids determine the
-   operation always produces an accepted trace ... *)
-Lemma model_trace_readonly hs fs : Forall read_only (map snd fs) ->
-  forall s, model_trace hs fs s = map (fun p => (fst p, hs s, hs s, snd (e_run (snd p) s))) fs.
+(* ---- the alphabet of calls: entry point x argument kind ---- *)
+
+Lemma entry_id_inj a b : entry_id a = entry_id b -> a = b.
+Proof. destruct a, b; simpl; intros H; try reflexivity; discriminate H. Qed.
+
+Lemma akind_id_inj a b : akind_id a = akind_id b -> a = b.
+Proof. destruct a, b; simpl; intros H; try reflexivity; discriminate H. Qed.
+
+Lemma call_eqb_eq c1 c2 : call_eqb c1 c2 = true <-> c1 = c2.
 Proof.
-  induction fs as [|[i f] fs IH]; intros H s; simpl; auto.
-  inversion H as [|? ? Hf Hr]; subst.
-  pose proof (read_only_id f Hf s) as E. destruct (e_run f s) as [s1 x]; simpl in *. subst s1.
-  now rewrite IH.
+  destruct c1 as [e1 k1], c2 as [e2 k2]. unfold call_eqb; simpl. split.
+  - intros H. apply andb_true_iff in H as [H1 H2]. apply Z.eqb_eq in H1, H2.
+    f_equal; [now apply entry_id_inj | now apply akind_id_inj].
+  - intros [= -> ->]. now rewrite !Z.eqb_refl.
 Qed.
 
-Lemma trace_ok_sound_lemma hs fs s :
-  Forall read_only (map snd fs) ->
-  (forall i f g, In (i, f) fs -> In (i, g) fs -> f = g) ->
-  trace_ok (hs s, model_trace hs fs s) = true.
+Lemma call_eqb_refl c : call_eqb c c = true.
+Proof. now apply call_eqb_eq. Qed.
+
+Lemma sem_read_only_Forall (sem : call -> eop) cs :
+  (forall c, In c cs -> read_only (sem c)) -> Forall read_only (map sem cs).
 Proof.
-  intros H D. rewrite (model_trace_readonly hs fs H s). unfold trace_ok.
+  intros H. apply Forall_forall. intros f Hf. apply in_map_iff in Hf as [c [<- Hc]]. auto.
+Qed.
+
+(* every sequence of read-only calls (any entry points, any argument kinds, any length, any order,
+   with repetitions) leaves the store unchanged, and every result is that of the same call on the
+   INITIAL store *)
+Lemma readonly_calls_pure_lemma (sem : call -> eop) cs :
+  (forall c, In c cs -> read_only (sem c)) ->
+  forall s, run_calls sem cs s = (s, map (fun c => snd (e_run (sem c) s)) cs).
+Proof.
+  intros H s. unfold run_calls.
+  rewrite (readonly_sequence_pure_lemma _ (sem_read_only_Forall sem cs H) s). now rewrite map_map.
+Qed.
+
+Lemma repeated_call_same_result_lemma (sem : call -> eop) cs :
+  (forall c, In c cs -> read_only (sem c)) ->
+  forall s i j c, nth_error cs i = Some c -> nth_error cs j = Some c ->
+  fst (run_calls sem cs s) = s /\
+  nth_error (snd (run_calls sem cs s)) i = Some (snd (e_run (sem c) s)) /\
+  nth_error (snd (run_calls sem cs s)) j = nth_error (snd (run_calls sem cs s)) i.
+Proof.
+  intros H s i j c Hi Hj. rewrite (readonly_calls_pure_lemma sem cs H s). simpl.
+  split; auto.
+  rewrite (map_nth_error (fun c => snd (e_run (sem c) s)) i cs Hi),
+          (map_nth_error (fun c => snd (e_run (sem c) s)) j cs Hj). auto.
+Qed.
+
+Lemma reordered_calls_same_results_lemma (sem : call -> eop) cs cs' :
+  (forall c, In c cs -> read_only (sem c)) -> Permutation cs cs' ->
+  forall s, fst (run_calls sem cs' s) = s /\
+            Permutation (combine cs (snd (run_calls sem cs s))) (combine cs' (snd (run_calls sem cs' s))).
+Proof.
+  intros H P s.
+  assert (H' : forall c, In c cs' -> read_only (sem c)).
+  { intros c Hc. apply H. apply Permutation_sym in P. eapply Permutation_in; eauto. }
+  rewrite (readonly_calls_pure_lemma sem cs H s), (readonly_calls_pure_lemma sem cs' H' s). simpl.
+  split; auto.
+  assert (C : forall l : list call, combine l (map (fun c => snd (e_run (sem c) s)) l) = map (fun c => (c, snd (e_run (sem c) s))) l).
+  { induction l; simpl; congruence. }
+  rewrite !C. now apply Permutation_map.
+Qed.
+
+(* the observed footprint table.  A semantics RESPECTS a table when every call listed in it writes
+   at most the listed locations; when the table is empty for every call of a sequence, the
+   sequence is pure *)
+Definition respects_table (sem : call -> eop) (t : fp_table) : Prop :=
+  forall c ws, In (c, ws) t -> respects_footprint (sem c) /\ e_writes (sem c) = ws.
+
+Lemma empty_table_pure_lemma (sem : call -> eop) (t : fp_table) :
+  respects_table sem t -> table_empty t = true ->
+  forall cs, (forall c, In c cs -> table_covers t c = true) ->
+  forall s, run_calls sem cs s = (s, map (fun c => snd (e_run (sem c) s)) cs).
+Proof.
+  intros R E cs C. apply readonly_calls_pure_lemma. intros c Hc.
+  specialize (C c Hc). unfold table_covers in C. apply existsb_exists in C as [[c' ws] [Hin Heq]].
+  simpl in Heq. apply call_eqb_eq in Heq. subst c'.
+  unfold table_empty in E. rewrite forallb_forall in E. specialize (E _ Hin). simpl in E.
+  destruct ws; [|discriminate]. destruct (R c [] Hin) as [R1 R2]. split; auto.
+Qed.
+
+(* the trace checker is sound: a sequence of read-only calls always produces an accepted trace ... *)
+Lemma model_trace_readonly hs (sem : call -> eop) cs : (forall c, In c cs -> read_only (sem c)) ->
+  forall s, model_trace hs sem cs s = map (fun c => (c, hs s, hs s, snd (e_run (sem c) s))) cs.
+Proof.
+  induction cs as [|c cs IH]; intros H s; simpl; auto.
+  pose proof (read_only_id (sem c) (H c (or_introl eq_refl)) s) as E.
+  destruct (e_run (sem c) s) as [s1 x]; simpl in *. subst s1.
+  rewrite IH; [reflexivity | intros c' Hc'; apply H; now right].
+Qed.
+
+Lemma trace_ok_sound_lemma hs (sem : call -> eop) cs s :
+  (forall c, In c cs -> read_only (sem c)) ->
+  trace_ok (hs s, model_trace hs sem cs s) = true.
+Proof.
+  intros H. rewrite (model_trace_readonly hs sem cs H s). unfold trace_ok.
   apply andb_true_iff; split.
-  - apply forallb_forall. intros r Hr. apply in_map_iff in Hr as [[i f] [<- _]]. simpl.
+  - apply forallb_forall. intros r Hr. apply in_map_iff in Hr as [c [<- _]]. simpl.
     now rewrite Z.eqb_refl.
   - apply forallb_forall. intros r1 H1. apply forallb_forall. intros r2 H2.
-    apply in_map_iff in H1 as [[i f] [<- I1]]. apply in_map_iff in H2 as [[j g] [<- I2]]. simpl.
-    destruct (Z.eqb_spec i j) as [->|]; simpl; auto.
-    rewrite (D j f g I1 I2). apply Z.eqb_refl.
+    apply in_map_iff in H1 as [c1 [<- I1]]. apply in_map_iff in H2 as [c2 [<- I2]]. simpl.
+    destruct (call_eqb c1 c2) eqn:E; simpl; auto.
+    apply call_eqb_eq in E. subst c2. apply Z.eqb_refl.
 Qed.
 
-(* ... and complete: an accepted trace is explained by a pure function of the initial store *)
+(* ... and complete: an accepted trace is explained by a pure function of the call (entry point and
+   argument kind) and the initial store *)
 Lemma trace_ok_complete_lemma init tr :
   trace_ok (init, tr) = true ->
-  exists resf : Z -> Z,
+  exists resf : call -> Z,
     Forall (fun r : trow => let '(o, b, a, x) := r in b = init /\ a = init /\ x = resf o) tr.
 Proof.
   unfold trace_ok. intros H. apply andb_true_iff in H as [H1 H2].
-  exists (fun o => match find (fun r : trow => let '(o', _, _, _) := r in Z.eqb o' o) tr with
+  exists (fun o => match find (fun r : trow => let '(o', _, _, _) := r in call_eqb o' o) tr with
                    | Some (_, _, _, x) => x | None => 0%Z end).
   apply Forall_forall. intros [[[o b] a] x] Hin.
   rewrite forallb_forall in H1. specialize (H1 _ Hin). simpl in H1.
   apply andb_true_iff in H1 as [Hb Ha]. apply Z.eqb_eq in Hb, Ha. split; [auto|split; [auto|]].
   destruct (find _ tr) as [[[[o' b'] a'] x']|] eqn:F.
-  - apply find_some in F as [Hin' Eo]. apply Z.eqb_eq in Eo. subst o'.
+  - apply find_some in F as [Hin' Eo]. apply call_eqb_eq in Eo. subst o'.
     rewrite forallb_forall in H2. specialize (H2 _ Hin'). rewrite forallb_forall in H2.
-    specialize (H2 _ Hin). simpl in H2. rewrite Z.eqb_refl in H2. simpl in H2.
+    specialize (H2 _ Hin). simpl in H2. rewrite call_eqb_refl in H2. simpl in H2.
     apply Z.eqb_eq in H2. auto.
-  - exfalso. eapply find_none in F; eauto. simpl in F. now rewrite Z.eqb_refl in F.
+  - exfalso. eapply find_none in F; eauto. simpl in F. now rewrite call_eqb_refl in F.
 Qed.
 
 (* hypotheses are satisfiable by non-trivial operations: a read-only operation that really reads
@@ -358,12 +470,211 @@ Proof.
   - intros [_ W]. discriminate.
 Qed.
 
+(* a semantics over the call alphabet: the result depends on the entry point, the kind and the store *)
+Definition ex_sem (c : call) : eop :=
+  mk_eop (fun s => (s, (fold_right Z.add 0 s + 100 * entry_id (fst c) + akind_id (snd c))%Z)) [].
+Definition ex_sem_bad (c : call) : eop :=
+  match c with (E_transpose, K_PartList) => ex_bump | _ => ex_sem c end.
+
+Lemma ex_sem_read_only : forall c, read_only (ex_sem c).
+Proof. intros c. repeat split; auto. Qed.
+
 Example readonly_example :
   run_seq [ex_sum; ex_len; ex_sum] [3; 4]%Z = ([3; 4]%Z, [7; 2; 7]%Z) /\
   fst (run_seq [ex_sum; ex_bump; ex_sum] [3; 4]%Z) <> [3; 4]%Z.
 Proof. split; [reflexivity | vm_compute; discriminate]. Qed.
 
+Example calls_example :
+  run_calls ex_sem [(E_transpose, K_PartList); (E_save_musicxml, K_Score); (E_transpose, K_PartList)] [3; 4]%Z
+  = ([3; 4]%Z, [(7 + 100 * entry_id E_transpose + 3)%Z; 7%Z; (7 + 100 * entry_id E_transpose + 3)%Z]) /\
+  fst (run_calls ex_sem_bad [(E_transpose, K_Score); (E_transpose, K_PartList)] [3; 4]%Z) <> [3; 4]%Z /\
+  trace_ok (0%Z, model_trace (fold_right Z.add 0%Z) ex_sem_bad [(E_transpose, K_Score); (E_transpose, K_PartList)] [3; 4]%Z) = false.
+Proof. split; [reflexivity | split; [vm_compute; discriminate | reflexivity]]. Qed.
+
 Example iteration_example :
   run_fresh [10; 20]%Z [] [Iter 0; Next 0; Iter 1; Next 1; Len; Next 1; Get (-1); Next 1; Next 0; Next 0]%nat
   = [RIter; RYield 10; RIter; RYield 10; RLen 2; RYield 20; RItem 20; RStop; RYield 20; RStop]%Z.
 Proof. reflexivity. Qed.
+
+(* ------------------------------------------------------------------------------------ *)
+(* (c) deep copy before modification *)
+
+Lemma hset_length h : forall l v, length (hset h l v) = length h.
+Proof. induction h as [|x h IH]; intros [|l] v; simpl; auto. Qed.
+
+Lemma firstn_hset n : forall h l v, (n <= l)%nat -> firstn n (hset h l v) = firstn n h.
+Proof.
+  induction n as [|n IH]; intros h l v L; [reflexivity|].
+  destruct h as [|x h]; [reflexivity|]. destruct l as [|l]; [lia|]. simpl. f_equal. apply IH. lia.
+Qed.
+
+Lemma modify_length f ls : forall h, length (modify f ls h) = length h.
+Proof. unfold modify. induction ls as [|l ls IH]; intros h; simpl; auto. rewrite IH. apply hset_length. Qed.
+
+Lemma firstn_modify f n ls : Forall (fun l => (n <= l)%nat) ls ->
+  forall h, firstn n (modify f ls h) = firstn n h.
+Proof.
+  unfold modify. induction 1 as [|l ls Hl _ IH]; intros h; simpl; auto.
+  rewrite IH. now apply firstn_hset.
+Qed.
+
+Lemma hset_app_mid h : forall v r x, hset (h ++ v :: r) (length h) x = h ++ x :: r.
+Proof. induction h as [|y h IH]; intros v r x; simpl; auto. now rewrite IH. Qed.
+
+Lemma hget_app_mid h v r : hget (h ++ v :: r) (length h) = v.
+Proof. unfold hget. apply nth_middle. Qed.
+
+Lemma modify_fresh f : forall vs h, modify f (seq (length h) (length vs)) (h ++ vs) = h ++ map f vs.
+Proof.
+  induction vs as [|v vs IH]; intros h; [reflexivity|].
+  cbn [length seq]. unfold modify in *. cbn [fold_left].
+  rewrite hget_app_mid, hset_app_mid.
+  replace (h ++ f v :: vs) with ((h ++ [f v]) ++ vs) by (rewrite <- app_assoc; reflexivity).
+  replace (S (length h)) with (length (h ++ [f v])) by (rewrite app_length; simpl; lia).
+  rewrite IH. rewrite <- app_assoc. reflexivity.
+Qed.
+
+Lemma values_fresh : forall ws h, values (h ++ ws) (seq (length h) (length ws)) = ws.
+Proof.
+  unfold values. induction ws as [|w ws IH]; intros h; [reflexivity|].
+  cbn [length seq map]. rewrite hget_app_mid. f_equal.
+  replace (h ++ w :: ws) with ((h ++ [w]) ++ ws) by (rewrite <- app_assoc; reflexivity).
+  replace (S (length h)) with (length (h ++ [w])) by (rewrite app_length; simpl; lia).
+  apply IH.
+Qed.
+
+Lemma seq_ge n k : Forall (fun l => (n <= l)%nat) (seq n k).
+Proof. apply Forall_forall. intros l H. apply in_seq in H. lia. Qed.
+
+Lemma firstn_app_exact {A} (a b : list A) : firstn (length a) (a ++ b) = a.
+Proof. rewrite firstn_app, Nat.sub_diag, firstn_all. simpl. apply app_nil_r. Qed.
+
+(* the argument's cells (all cells that existed before the call) keep their values, and the result
+   consists of cells that did not exist before *)
+Lemma copy_modify_preserves_argument_lemma w f h roots : w <> WalkArgument ->
+  firstn (length h) (fst (copy_modify w f h roots)) = h /\
+  Forall (fun l => (length h <= l)%nat) (snd (copy_modify w f h roots)) /\
+  NoDup (snd (copy_modify w f h roots)) /\
+  (length h <= length (fst (copy_modify w f h roots)))%nat.
+Proof.
+  intros W. unfold copy_modify, deepcopy. cbn [fst snd].
+  split; [|split; [apply seq_ge|split; [apply seq_NoDup|rewrite modify_length, app_length; lia]]].
+  rewrite firstn_modify; [apply firstn_app_exact|].
+  destruct w; [apply seq_ge|contradiction|constructor].
+Qed.
+
+(* what the result holds *)
+Lemma copy_modify_result_lemma f h roots :
+  values (fst (copy_modify WalkCopy f h roots)) (snd (copy_modify WalkCopy f h roots)) = map f (values h roots) /\
+  values (fst (copy_modify WalkNothing f h roots)) (snd (copy_modify WalkNothing f h roots)) = values h roots.
+Proof.
+  unfold copy_modify, deepcopy. cbn [fst snd]. split.
+  - replace (length roots) with (length (map (hget h) roots)) by apply map_length.
+    rewrite modify_fresh. unfold values at 2.
+    replace (length (map (hget h) roots)) with (length (map f (map (hget h) roots))) by (now rewrite !map_length).
+    apply values_fresh.
+  - unfold modify. cbn [fold_left].
+    replace (length roots) with (length (map (hget h) roots)) by apply map_length.
+    apply values_fresh.
+Qed.
+
+Lemma nth_firstn_below {A} (d : A) : forall n l (h : list A), (l < n)%nat -> nth l (firstn n h) d = nth l h d.
+Proof.
+  induction n as [|n IH]; intros l h L; [lia|].
+  destruct h as [|x h]; [reflexivity|]. destruct l as [|l]; [reflexivity|]. simpl. apply IH. lia.
+Qed.
+
+Lemma values_firstn h h' roots :
+  firstn (length h) h' = h -> Forall (fun l => (l < length h)%nat) roots -> values h' roots = values h roots.
+Proof.
+  intros E R. unfold values. apply map_ext_in. intros l Hl. rewrite Forall_forall in R. specialize (R l Hl).
+  unfold hget. rewrite <- (nth_firstn_below 0%Z (length h) l h' R). now rewrite E.
+Qed.
+
+(* two calls in a row: the argument is still as it was and both results hold the same values *)
+Lemma copy_modify_repeatable_lemma w f h roots : w <> WalkArgument ->
+  Forall (fun l => (l < length h)%nat) roots ->
+  firstn (length h) (fst (fst (call_twice w f h roots))) = h /\
+  snd (fst (call_twice w f h roots)) = snd (call_twice w f h roots).
+Proof.
+  intros W R. unfold call_twice.
+  destruct (copy_modify_preserves_argument_lemma w f h roots W) as [P1 [_ [_ L1]]].
+  destruct (copy_modify w f h roots) as [h1 r1] eqn:E1. cbn [fst snd] in *.
+  destruct (copy_modify_preserves_argument_lemma w f h1 roots W) as [P2 _].
+  destruct (copy_modify w f h1 roots) as [h2 r2] eqn:E2. cbn [fst snd] in *.
+  split.
+  - transitivity (firstn (length h) (firstn (length h1) h2)); [rewrite firstn_firstn; f_equal; lia | rewrite P2; exact P1].
+  - pose proof (copy_modify_result_lemma f h roots) as [C1 N1].
+    pose proof (copy_modify_result_lemma f h1 roots) as [C2 N2].
+    pose proof (values_firstn h h1 roots P1 R) as V.
+    destruct w; [|contradiction|].
+    + rewrite E1 in C1. rewrite E2 in C2. cbn [fst snd] in *. rewrite C1, C2, V. reflexivity.
+    + rewrite E1 in N1. rewrite E2 in N2. cbn [fst snd] in *. rewrite N1, N2, V. reflexivity.
+Qed.
+
+(* the seeded slip (the loop walks the parts of the ARGUMENT): the argument is changed, the first
+   result is an unmodified copy and a second call returns something else *)
+Lemma walk_argument_refuted_lemma :
+  exists (f : Z -> Z) (h : heap) (roots : list nat),
+    Forall (fun l => (l < length h)%nat) roots /\
+    firstn (length h) (fst (copy_modify WalkArgument f h roots)) <> h /\
+    values (fst (copy_modify WalkArgument f h roots)) (snd (copy_modify WalkArgument f h roots)) = values h roots /\
+    snd (fst (call_twice WalkArgument f h roots)) <> snd (call_twice WalkArgument f h roots).
+Proof.
+  exists Z.succ, [60; 64]%Z, [0; 1]%nat. split; [repeat constructor|].
+  split; [vm_compute; discriminate|]. split; [reflexivity | vm_compute; discriminate].
+Qed.
+
+(* transpose: for EVERY argument kind the argument is unchanged and two calls agree *)
+Lemma transpose_walk_not_argument k : transpose_walk k <> WalkArgument.
+Proof. destruct k; discriminate. Qed.
+
+Lemma transpose_every_kind_lemma (k : akind) f h roots :
+  Forall (fun l => (l < length h)%nat) roots ->
+  firstn (length h) (fst (copy_modify (transpose_walk k) f h roots)) = h /\
+  firstn (length h) (fst (fst (call_twice (transpose_walk k) f h roots))) = h /\
+  snd (fst (call_twice (transpose_walk k) f h roots)) = snd (call_twice (transpose_walk k) f h roots).
+Proof.
+  intros R. split.
+  - apply copy_modify_preserves_argument_lemma, transpose_walk_not_argument.
+  - apply copy_modify_repeatable_lemma; [apply transpose_walk_not_argument | exact R].
+Qed.
+
+Lemma list_eqb_Z_refl (l : list Z) : list_eqb Z.eqb l l = true.
+Proof. induction l as [|x l IH]; simpl; auto. now rewrite Z.eqb_refl, IH. Qed.
+
+Lemma seq_lt n : Forall (fun l => (l < n)%nat) (seq 0 n).
+Proof. apply Forall_forall. intros l H. apply in_seq in H. lia. Qed.
+
+(* the correspondence checker accepts what the model produces, for every kind, every f, every heap *)
+Lemma cow_ok_sound_lemma (k : akind) f (before : list Z) :
+  let '(h2, v1, v2) := call_twice (transpose_walk k) f before (seq 0 (length before)) in
+  cow_ok (k, before, firstn (length before) h2, v1, v2) = true.
+Proof.
+  pose proof (copy_modify_repeatable_lemma (transpose_walk k) f before (seq 0 (length before))
+                (transpose_walk_not_argument k) (seq_lt _)) as [A B].
+  pose proof (copy_modify_repeatable_lemma (transpose_walk k) (fun x => x) before (seq 0 (length before))
+                (transpose_walk_not_argument k) (seq_lt _)) as [A' _].
+  destruct (call_twice (transpose_walk k) f before (seq 0 (length before))) as [[h2 v1] v2] eqn:E.
+  cbn [fst snd] in *. unfold cow_ok.
+  destruct (call_twice (transpose_walk k) (fun x => x) before (seq 0 (length before))) as [[h2' v1'] v2'] eqn:E'.
+  cbn [fst snd] in *. rewrite A, A', B. now rewrite !list_eqb_Z_refl.
+Qed.
+
+(* and what it accepts is what the property says: argument as before, results equal *)
+Lemma cow_ok_meaning_lemma k before after res1 res2 :
+  cow_ok (k, before, after, res1, res2) = true -> after = before /\ res1 = res2.
+Proof.
+  unfold cow_ok.
+  pose proof (copy_modify_repeatable_lemma (transpose_walk k) (fun x => x) before (seq 0 (length before))
+                (transpose_walk_not_argument k) (seq_lt _)) as [A _].
+  destruct (call_twice (transpose_walk k) (fun x => x) before (seq 0 (length before))) as [[h2 v1] v2].
+  cbn [fst snd] in A. rewrite A. intros H. apply andb_true_iff in H as [H1 H2].
+  split; [symmetry|]; eapply list_eqb_eq; eauto; intros x y; apply Z.eqb_eq.
+Qed.
+
+Example copy_modify_example :
+  copy_modify WalkCopy (Z.add 4) [60; 64; 67]%Z [0; 2]%nat = ([60; 64; 67; 64; 71]%Z, [3; 4]%nat) /\
+  copy_modify (transpose_walk K_GroupList) (Z.add 4) [60; 64; 67]%Z [0; 2]%nat = ([60; 64; 67; 60; 67]%Z, [3; 4]%nat) /\
+  copy_modify WalkArgument (Z.add 4) [60; 64; 67]%Z [0; 2]%nat = ([64; 64; 71; 60; 67]%Z, [3; 4]%nat).
+Proof. repeat split. Qed.
